@@ -428,12 +428,20 @@ def _cross_objects(sa):
     L = lambda a, d: {"t": "Line", "form": "PV", "a": X.ser(a), "b": X.ser(d), "ints": False}
     S = lambda a, d: {"t": "Segment", "form": "PV", "a": X.ser(X.sub(a, d)), "b": X.ser(X.mul(F(2), d)), "ints": False}
     out = []
+    H = lambda a, d: {"t": "HalfLine", "form": "PV", "a": X.ser(a), "b": X.ser(d), "ints": False}
+    SG = lambda a, b: {"t": "Segment", "form": "PP", "a": X.ser(a), "b": X.ser(b), "ints": False}
     if t in ("Line", "Segment", "HalfLine"):
         a, d = X.carrier(sa)
         other = [f for f in (f1, f2, f3) if not X.parallel(f, d)]
         for f in other[:2]:
             out.append(("cross:line", L(a, f)))
         out.append(("cross:segment", S(X.add(a, d), other[0])))
+        # collinear partners of another type: coincidence across types
+        out.append(("cross:collinear_halfline", H(a, d)))
+        out.append(("cross:collinear_halfline_back", H(X.add(a, d), X.mul(F(-1), d))))
+        out.append(("cross:collinear_segment", SG(X.sub(a, d), X.add(a, X.mul(F(2), d)))))
+        out.append(("cross:collinear_segment_inside", SG(X.add(a, X.mul(F(1, 4), d)), X.add(a, X.mul(F(3, 4), d)))))
+        out.append(("cross:collinear_line", L(X.add(a, d), X.mul(F(-2), d))))
     elif t == "Plane":
         a, n = X.carrier(sa)
         inpl = [f for f in (f1, f2, f3) if X.dot(f, n) == 0]
@@ -453,11 +461,21 @@ def _cross_objects(sa):
         out.append(("cross:line", L(mid, n)))
         out.append(("cross:segment", S(vs[0], n)))
         out.append(("cross:line_in", L(vs[0], X.sub(vs[1], vs[0]))))
+        # a coplanar copy shifted by half an edge: collinear overlapping edges, shared boundary
+        if sa.get("form") == "pts":
+            sh = X.mul(F(1, 2), X.sub(vs[1], vs[0]))
+            out.append(("cross:coplanar_polygon", {"t": "ConvexPolygon", "form": "pts", "pts": [X.ser(X.add(p, sh)) for p in vs], "neg": False, "container": "tuple", "ints": False}))
+            out.append(("cross:plane_of", {"t": "Plane", "form": "PV", "a": X.ser(vs[0]), "n": X.ser(n), "ints": False}))
     elif t == "ConvexPolyhedron":
         vs = X.vertices(sa)
         c = X.mul(F(1, 2), X.add(vs[0], vs[-1]))  # centre of a box (opposite corners)
         out.append(("cross:line", L(c, f1)))
         out.append(("cross:segment", S(c, X.mul(F(1, 8), f2))))
+        if sa.get("form") == "ppiped":
+            # the same box shifted by half its first edge: four coplanar overlapping faces
+            o, u = X.vec(sa["o"]), X.vec(sa["u"])
+            out.append(("cross:overlapping_box", dict(sa, o=X.ser(X.add(o, X.mul(F(1, 2), u))))))
+            out.append(("cross:face_plane", {"t": "Plane", "form": "PV", "a": X.ser(o), "n": X.ser(u), "ints": False}))
     return out
 
 
